@@ -117,7 +117,7 @@ def run(tier):
     # 2. real runs
     cases = SC.all_cases(shapes, None if thorough else 14, rnd)
     nsched = 14 if thorough else 4
-    runs = SC.run_real(cases, nsched, chk.scratch, chk.seed + 7)
+    runs = SC.run_real(cases, nsched, chk.scratch, chk.seed + 7, per_shape_budget=120 if thorough else 40)
     results, tl = SC.validate_traces("c02" + tier, shapes, runs, fixobs=FIXOBS)
     for t in tl:
         chk.add_tlc(t)
